@@ -1499,7 +1499,7 @@ rrul_fill_wly(echs_instant_t *restrict tgt, size_t nti, rrulsp_t rr)
 		     __CPROVER_decreases(d)
 #endif	/* ECHSE_VERIF */
 		     {
-			     d--, d %= maxd, d++;
+			     d -= maxd;
 			     if (++m > 12U) {
 				     y++;
 				     m = 1U;
@@ -1725,7 +1725,7 @@ rrul_fill_dly(echs_instant_t *restrict tgt, size_t nti, rrulsp_t rr)
 		     __CPROVER_decreases(d)
 #endif	/* ECHSE_VERIF */
 		     {
-			     d--, d %= maxd, d++;
+			     d -= maxd;
 			     if (++m > 12U) {
 				     y++;
 				     m = 1U;
@@ -1940,7 +1940,7 @@ rrul_fill_Hly(echs_instant_t *restrict tgt, size_t nti, rrulsp_t rr)
 			     __CPROVER_decreases(d)
 #endif	/* ECHSE_VERIF */
 			     {
-				     d--, d %= maxd, d++;
+				     d -= maxd;
 				     if (++m > 12U) {
 					     y++;
 					     m = 1U;
@@ -2202,7 +2202,7 @@ rrul_fill_Mly(echs_instant_t *restrict tgt, size_t nti, rrulsp_t rr)
 				     __CPROVER_decreases(d)
 #endif	/* ECHSE_VERIF */
 				     {
-					     d--, d %= maxd, d++;
+					     d -= maxd;
 					     if (++m > 12U) {
 						     y++;
 						     m = 1U;
@@ -2469,7 +2469,7 @@ rrul_fill_Sly(echs_instant_t *restrict tgt, size_t nti, rrulsp_t rr)
 					     __CPROVER_decreases(d)
 #endif	/* ECHSE_VERIF */
 					     {
-						     d--, d %= maxd, d++;
+						     d -= maxd;
 						     if (++m > 12U) {
 							     y++;
 							     m = 1U;
